@@ -479,6 +479,10 @@ def classify(c, fails):
     if ev.ext and ev.vis.lb() is None and all(f[0].startswith("per table") for f in fails): return "F94"
     if ev.multi_own_ext: return "F91"
     big = G.sample_points(c.levels)
+    lits = set(); 
+    for lv in c.levels:
+        for sp in lv: G.literals_spec(sp, lits)
+    if ((2**63 - 1) in lits and max(lits) > 2**63 - 1) or (-2**63 in lits and min(lits) < -2**63): return "F95"
     if any(f[0] == "oer table" for f in fails) and len(fails) == 1 and max(big) > 2**64: return "F93"
     return None
 
